@@ -333,25 +333,32 @@ func (w *World) computeSig(root *ssa.Function) funcSig {
 				return out
 			}
 			ts, fs = filt(ts), filt(fs)
-			// exits distinguish sides that call nothing
-			exit := func(s *ssa.BasicBlock) string {
-				if len(s.Preds) != 1 {
-					return ""
-				}
-				if len(s.Instrs) > 0 {
-					switch s.Instrs[len(s.Instrs)-1].(type) {
-					case *ssa.Return:
-						return "·return"
-					case *ssa.Panic:
-						return "·panic"
+			// exits distinguish sides that call nothing: a side "leaves" when nothing it can reach is reachable from the
+			// other side as well (it returns or panics on every path instead of rejoining)
+			exit := func(s, o *ssa.BasicBlock) string {
+				ro := blockReach(o, nil)
+				ro[o] = true
+				rs := blockReach(s, nil)
+				rs[s] = true
+				for b := range rs {
+					if ro[b] {
+						return ""
 					}
 				}
-				return ""
+				for b := range rs {
+					if len(b.Succs) == 0 {
+						if _, isP := b.Instrs[len(b.Instrs)-1].(*ssa.Panic); isP {
+							continue
+						}
+						return "·return"
+					}
+				}
+				return "·panic"
 			}
-			if e := exit(t); e != "" {
+			if e := exit(t, f); e != "" {
 				ts = append(ts, e)
 			}
-			if e := exit(f); e != "" {
+			if e := exit(f, t); e != "" {
 				fs = append(fs, e)
 			}
 			pos := b.Instrs[len(b.Instrs)-1].Pos()
@@ -548,6 +555,7 @@ func sigRules(w *World, r *Report, prop string) {
 		return
 	}
 	r.Rule(prop+"-B5", "operands keep their identity", "at a call of a repository function / interface method, a field store or a map update found again, exactly one operand differs from the reference and the new operand is another value the reference function already uses elsewhere: the wrong one of two same-typed values is used", 0)
+	r.Rule(prop+"-B7", "guards keep leaving", "a decision found again whose one side left the function in the reference tree (and whose other side is unchanged) still leaves it on that side", 0)
 	r.Rule(prop+"-B6", "accesses keep their locks", "an access to shared state (a field of the receiver / of a parameter, or a map held in one) found again is made with at least the locks held in the reference tree", 0)
 	nLock := 0
 	nOp := 0
@@ -580,6 +588,24 @@ func sigRules(w *World, r *Report, prop string) {
 				cons := fmt.Sprintf("%s | branch on %s", host, clip(k, 90))
 				if len(rs) > 1 {
 					cons = fmt.Sprintf("%s #%d", cons, i+1)
+				}
+				lost := func(refSide, curSide []string) bool {
+					had, has := false, false
+					for _, x := range refSide {
+						if x == "·return" {
+							had = true
+						}
+					}
+					for _, x := range curSide {
+						if x == "·return" || x == "·panic" {
+							has = true
+						}
+					}
+					return had && !has
+				}
+				if (lost(rs[i].T, cs[i].T) && eqSet(rs[i].F, cs[i].F)) || (lost(rs[i].F, cs[i].F) && eqSet(rs[i].T, cs[i].T)) {
+					r.Fail(prop+"-B7", cons, cs[i].at, "in the reference tree the function is left on one side of this decision (a guard that rejects, an error exit); in this tree that side falls through into the code the guard protected, while the other side is unchanged: the `return` was removed or moved")
+					continue
 				}
 				if !eqSet(rs[i].T, rs[i].F) && eqSet(cs[i].T, rs[i].F) && eqSet(cs[i].F, rs[i].T) {
 					r.Fail(prop+"-B1", cons, cs[i].at, fmt.Sprintf("the two sides of this decision are exchanged with respect to the reference tree: what ran only when the condition held (%s) now runs only when it does not, and vice versa (%s) — the test was negated or its bodies swapped", clip(strings.Join(rs[i].T, ", "), 120), clip(strings.Join(rs[i].F, ", "), 120)))
@@ -730,6 +756,7 @@ func sigRules(w *World, r *Report, prop string) {
 			}
 		}
 	}
+	r.OK(prop+"-B7", "census", 0, fmt.Sprintf("%d decisions matched with the reference", nCond))
 	r.OK(prop+"-B6", "census", 0, fmt.Sprintf("%d shared-state accesses matched with the reference", nLock))
 	r.OK(prop+"-B5", "census", 0, fmt.Sprintf("%d operations matched with the reference", nOp))
 	r.OK(prop+"-B2", "census", 0, fmt.Sprintf("%d comparisons matched with the reference", nCmp))
